@@ -534,6 +534,9 @@ def m_misc(ex, st, callee, A):
     m = re.match(r'^<(.*) as From<(.*)>>::from$', callee)
     if m and (m.group(1).strip() == m.group(2).strip()):
         return A[0]
+    if m and re.match(r'^impl Into<(.*)>$', m.group(2).strip()) and base_type(re.match(r'^impl Into<(.*)>$', m.group(2).strip()).group(1)) == base_type(m.group(1)) \
+            and isinstance(A[0], Agg) and A[0].name and base_type(A[0].name) == base_type(m.group(1)):
+        return A[0]          # `op.into()` on an anonymous `impl Into<T>` parameter instantiated with T itself
     if m and base_type(m.group(1)) in ex.from_wrappers and ex.resolve(callee, A) is None:
         # derive-generated (thiserror #[from]) conversion: the target wraps the source value unchanged
         ex.stats['stubbed'].add(f'From-wrapper:{base_type(m.group(1))}<-{base_type(m.group(2))}')
@@ -548,6 +551,8 @@ def m_misc(ex, st, callee, A):
     if re.search(r'^(?:std::sync::|alloc::sync::)?Arc::<.*>::new$', callee) or re.search(r'^(?:std::boxed::|alloc::boxed::)?Box::<.*>::new$', callee) \
             or re.search(r'^(?:std::rc::)?Rc::<.*>::new$', callee):
         return Agg('struct', callee.split('::<')[0].split('::')[-1], None, [A[0]], ('inner',))
+    if re.search(r'^(?:std::sync::|alloc::sync::)?Arc::<.*>::unwrap_or_clone$', callee) and isinstance(A[0], Agg) and A[0].name == 'Arc' and len(A[0].fields) == 1:
+        return A[0].fields[0]
     m = re.match(r'^<(?:std::sync::|std::boxed::|std::rc::)?(Arc|Box|Rc)<(.*)> as (?:std::ops::)?Deref(?:Mut)?>::deref(?:_mut)?$', callee)
     if m or re.match(r'^<(?:std::sync::)?Arc<.*> as AsRef<.*>>::as_ref$', callee):
         r = A[0]
@@ -776,6 +781,20 @@ def m_iter_hof(ex, st, callee, A):
             return Agg('struct', '~vec_iter', None, [Agg('tuple', None, None, [items[i], other[i]]) for i in range(n)])
         if op == 'collect':
             tgt = m.group(3) or ''
+            mr = re.match(r'^(?:std::result::|core::result::)?Result<(.*)>$', tgt.strip())
+            if mr:
+                # collect::<Result<C, E>>: the first Err, else Ok(C of the payloads) - on items whose variants are concrete
+                pay = []
+                for it in items:
+                    if not (isinstance(it, Agg) and it.variant in ('Ok', 'Err')):
+                        raise NotEncoded(f'collect into a Result of {it!r}')
+                    if it.variant == 'Err':
+                        return it
+                    pay.append(it.fields[0])
+                inner = split_top(mr.group(1))[0].strip()
+                if re.search(r'(HashMap|BTreeMap)<', inner.split('<')[0] + '<'):
+                    return ok(Agg('struct', '~hmap', None, pay))
+                return ok(Agg('struct', '~vec', None, pay))
             if re.search(r'(HashMap|BTreeMap)<', tgt):
                 ents = []
                 for it in items:
